@@ -112,6 +112,209 @@ def gen_case(rng, tier):
     return ";".join(ops), dict(sigs=sigs, has_omit=has_omit, dist=["omit" if has_omit else "plain"], trivial=False)
 
 
+# ---------------------------------------------------------------- tie of CopyModel.cp_reissue to src/copy.c
+# For programs whose FSR data is one global ramp per signal (pattern 1: the value at sample id s is base + (s - first),
+# so every block of the final stream can be written as a script op), the calls jls_copy has to make according to
+# CopyModel.cp_reissue are rebuilt from the ORIGINAL file's chunks in file order (a plain linear chunk scan below) as a
+# script q.  Checked per case:
+#   (a) the file jls_copy produces is byte-identical to the file the C writer produces when it runs q
+#       (so jls_copy made exactly the calls of q, in that order, with those arguments);
+#   (b) the extracted Spec accepts every call of q and reads q back exactly as it reads the original program p
+#       (the conclusions of C17_reissue_ok / C17_reissue_preserves on this instance: q is a cp_reissue of p).
+import os, struct
+
+
+def jls_chunks(b):
+    off, out = 32, []
+    while off + 32 <= len(b):
+        _nx, _pv, tag, _r, meta, plen, _pp, _crc = struct.unpack_from("<QQBBHIII", b, off)
+        pad = (plen + 4) & 7
+        pad = (8 - pad) if pad else 0
+        out.append((off, tag, meta, b[off + 32: off + 32 + plen]))
+        off += 32 + ((plen + pad + 4) if plen else 0)      # an empty payload has no pad / CRC on disk
+    return out
+
+
+def _tok(bs):
+    return "e" if len(bs) == 0 else "x" + bs.hex()
+
+
+def _strs(pay, pos, n):
+    out = []
+    for _ in range(n):
+        e = pay.index(b"\0", pos)
+        out.append(pay[pos:e])
+        pos = e + 2                                           # NUL, unit separator
+    return out
+
+
+def reissue_script(b, ramp):
+    """the writer calls of copy.c's switch, one per chunk in file order; ramp[sig] = (first id, base value)"""
+    ops = []
+    for _off, tag, meta, pay in jls_chunks(b):
+        if tag == 0x01 and meta != 0:
+            ops.append("src %d %s" % (meta, " ".join(_tok(x) for x in _strs(pay, 64, 5))))
+        elif tag == 0x02 and meta != 0:
+            src, st, _, dt, rate, spd, sdf, eps, sumdf, adf, udf = struct.unpack_from("<HBBIIIIIIII", pay, 0)
+            name, units = _strs(pay, 4 + 4 * 8 + 92, 2)
+            ops.append("sig %d %d %d %d %d %d %d %d %d %d %d %s %s" % (meta, src, st, dt, rate, spd, sdf, eps, sumdf, adf, udf, _tok(name), _tok(units)))
+        elif tag == 0x22:
+            sig = meta & 0xfff
+            ts, cnt, _esz, _ = struct.unpack_from("<qIHH", pay, 0)
+            first, base = ramp[sig]
+            ops.append("fsr %d %d %d 1 %d" % (sig, ts, cnt, base + (ts - first)))
+        elif tag == 0x32:
+            ts, _r, at, st, grp, _r8, ybits, dsz = struct.unpack_from("<qQBBBBII", pay, 0)
+            data = pay[28:28 + dsz]
+            if st in (2, 3):
+                data = data[:-1]                              # the writer re-appends the terminator
+            ops.append("anno %d %d %08x %d %d %d %s" % (meta & 0xfff, ts, ybits, at, grp, st, _tok(data)))
+        elif tag == 0x3a:
+            ts, _cnt, _esz, _, utc = struct.unpack_from("<qIHHq", pay, 0)
+            ops.append("utc %d %d %d" % (meta & 0xfff, ts, utc))
+        elif tag == 0x40:
+            st = (meta >> 12) & 0xf
+            if st != 0:
+                ops.append("ud %d %d %s" % (meta & 0xfff, st, _tok(pay[:-1] if st in (2, 3) else pay)))
+    return ops
+
+
+def gen_ramp_writer(rng, tier):
+    """like gen_writer, but every signal's data is one ramp (overlapping calls allowed: they agree on the overlap),
+    no omission, plus calls that must be rejected (repeated definitions, annotation with storage type 0)"""
+    ops = ["wopen"]
+    strs = lambda: rng.choice(["-", "e", "g%d.%d" % (rng.choice([1, 8, 300]), rng.randrange(1, 999))])
+    nsrc = rng.randrange(1, 3)
+    for s in range(nsrc):
+        ops.append("src %d %s %s %s %s %s" % ([1, 9][s], strs(), strs(), strs(), strs(), strs()))
+    sigs, ramp, body = {}, {}, []
+    for k in range(rng.randrange(1, 4)):
+        sid = [1, 4, 200][k]
+        # 24-bit types excluded: jls_dt_buffer_to_f64 has no case for them, so their SUMMARY chunks are computed from an
+        # unconverted (stale / uninitialised) buffer and the file bytes are not a function of the calls (DESIGN.md, C02 note)
+        dt = rng.choice([t for t in DT.keys() if DT_BITS[t] != 24])
+        spd, sdf, eps, sumdf = proglib.min_def(dt) if rng.random() < 0.6 else proglib.small_def(rng, dt)
+        ops.append(proglib.sigdef_op(sid, rng.choice([1, 9][:nsrc]), dt, rate=rng.choice([1000, 48000]), spd=spd, sdf=sdf, eps=eps, sumdf=sumdf,
+                                     adf=rng.choice([0, 10]), udf=rng.choice([0, 10]), name=strs(), units=strs()))
+        epd = max(1, spd // sdf)
+        while eps % epd:
+            epd -= 1
+        a_spd = sdf * epd
+        first = rng.choice([0, 0, 5, -3, 100000])
+        base = rng.randrange(0, 90000)
+        total = rng.choice([0, 1, sdf, a_spd, 3 * a_spd + 1, sdf * eps + 3, rng.randrange(1, 3000 if tier == "quick" else 20000)])
+        pos, calls = 0, []
+        while pos < total:
+            n = min(total - pos, rng.choice([1, 7, a_spd, a_spd + 1, 2 * a_spd, rng.randrange(1, 3 * a_spd + 2)]))
+            back = rng.randrange(0, min(pos, 2 * a_spd) + 1) if (pos and rng.random() < 0.25) else 0
+            calls.append("fsr %d %d %d 1 %d" % (sid, first + pos - back, n + back, base + pos - back))
+            pos += n
+        ts = first
+        for a in range(rng.choice([0, 0, 1, 5, 25])):
+            ts += rng.choice([0, 1, 10])
+            st = rng.choice([1, 2, 3])
+            calls.insert(rng.randrange(0, len(calls) + 1), "anno %d %d 3f800000 %d %d %d g%d.%d" % (sid, ts, rng.choice([0, 1, 2]), rng.choice([0, 3]), st, rng.choice([0, 5, 200]), rng.randrange(1, 999)))
+        us = first
+        for u in range(rng.choice([0, 0, 1, 3, 12])):
+            us += rng.choice([1, 100, 1000])
+            calls.insert(rng.randrange(0, len(calls) + 1), "utc %d %d %d" % (sid, us, 10**12 + u * 2**20))
+        # annotation timestamps and UTC sample ids non-decreasing in write order
+        for kind, col in (("anno", 2), ("utc", 2)):
+            idx = [i for i, c in enumerate(calls) if c.startswith(kind)]
+            vals = sorted(int(calls[i].split()[col]) for i in idx)
+            for i, v in zip(idx, vals):
+                f = calls[i].split()
+                f[col] = str(v)
+                calls[i] = " ".join(f)
+        if rng.random() < 0.3:
+            calls.insert(rng.randrange(0, len(calls) + 1), proglib.sigdef_op(sid, 1, dt, rate=1000))        # repeated definition: rejected
+        if rng.random() < 0.3:
+            calls.insert(rng.randrange(0, len(calls) + 1), "anno %d %d 3f800000 0 0 0 e" % (sid, first))     # storage type 0: rejected
+        body.append(calls)
+        sigs[sid] = dict(dt=dt, total=total, first=first)
+        ramp[sid] = (first, base)
+    if rng.random() < 0.5:
+        body.append(["anno 0 %d 3f800000 1 0 %d g6.%d" % (t, rng.choice([1, 2]), t) for t in sorted(rng.sample(range(0, 1000), rng.choice([1, 3, 12])))])
+    body.append(["ud %d %d g%d.%d" % (rng.choice([1, 0xfff]), rng.choice([0, 1, 2, 3]), rng.choice([0, 9, 1000]), rng.randrange(1, 999)) for _ in range(rng.randrange(0, 4))])
+    if rng.random() < 0.3:
+        body.append(["src 1 e e e e e"])                                                                    # repeated source: rejected
+    idx = [0] * len(body)
+    while any(idx[k] < len(body[k]) for k in range(len(body))):
+        k = rng.choice([k for k in range(len(body)) if idx[k] < len(body[k])])
+        ops.append(body[k][idx[k]])
+        idx[k] += 1
+    return ops, sigs, ramp
+
+
+def _hash_of(line):
+    last = line.split(";")[-1].split()
+    return (last[1], last[2]) if len(last) == 3 and last[0] == "hash" else None
+
+
+def tie_run(ctx):
+    import random
+    rng = random.Random(ctx.seed * 7919 + 17)              # own stream: the main generator's cases do not change
+    n = 40 if ctx.tier == "quick" else 400
+    scratch = os.path.join(ctx.tmp, "scratch_tie")
+    os.makedirs(scratch, exist_ok=True)
+    cases = []
+    for k in range(n):
+        w, sigs, ramp = gen_ramp_writer(rng, ctx.tier)
+        cases.append(dict(w=w, sigs=sigs, ramp=ramp, orig=os.path.join(scratch, "orig_%d.jls" % k), dump=dump_ops(rng, sigs, ctx.tier)))
+    args = [scratch, "timeout=60"]
+    s1 = [";".join(c["w"] + ["wclose", "save " + c["orig"], "copy", "hash"]) for c in cases]
+    o1 = vlib.run_c("plain", "prog", s1, args=args, timeout=3000)
+    s2 = []
+    for c, out in zip(cases, o1):
+        try:
+            c["q"] = reissue_script(open(c["orig"], "rb").read(), c["ramp"])
+        except Exception as e:                              # noqa: the original could not be scanned
+            c["q"] = None
+            c["err"] = repr(e)
+        s2.append(";".join(["wopen"] + (c["q"] or []) + ["wclose", "hash"]))
+    o2 = vlib.run_c("plain", "prog", s2, args=args, timeout=3000)
+    rd = lambda c: ["wclose", "ropen"] + c["dump"] + ["rclose"]
+    m1 = vlib.run_model("prog", [";".join(c["w"] + rd(c)) for c in cases], timeout=3000)
+    m2 = vlib.run_model("prog", [";".join(["wopen"] + (c["q"] or []) + rd(c)) for c in cases], timeout=3000)
+    nbad = 0
+    stats = dict(cases=n, identical=0, spec_equal=0, reissued_calls=0, rejected_in_original=0)
+    for k, c in enumerate(cases):
+        ctx.count(("tie", s1[k]), nontrivial=bool(c["q"]), sample=None)
+        why = None
+        copy_rc = [t for t in o1[k].split(";") if t.startswith("copy")]
+        if c["q"] is None:
+            why = "the original file could not be scanned: %s / %s" % (c.get("err"), o1[k][:200])
+        elif not copy_rc or copy_rc[0].split()[1:] != ["0"]:
+            why = "jls_copy failed: %s" % (copy_rc or o1[k][-200:])
+        elif _hash_of(o1[k]) is None or _hash_of(o1[k]) != _hash_of(o2[k]):
+            why = "jls_copy's file differs from the file written by the re-issued calls (cp_reissue, file order): copy %s, re-issue %s" % (_hash_of(o1[k]), _hash_of(o2[k]))
+        else:
+            stats["identical"] += 1
+            nw = len(c["q"]) + 1
+            wr2 = m2[k].split(";")[:nw]
+            rd1 = m1[k].split(";")[len(c["w"]) + 1:]
+            rd2 = m2[k].split(";")[nw + 1:]
+            stats["reissued_calls"] += len(c["q"])
+            stats["rejected_in_original"] += len([t for t in m1[k].split(";")[:len(c["w"])] if t.split()[1:2] == ["E"]])
+            if any(t.split()[1:2] != ["0"] for t in wr2):
+                why = "Spec rejects a re-issued call (C17_reissue_ok on this instance): %s" % [t for t in wr2 if t.split()[1:2] != ["0"]][:3]
+            elif rd1 != rd2 or not rd1:
+                d = [(a, b) for a, b in zip(rd1, rd2) if a != b][:2]
+                why = "Spec reads the re-issued calls differently from the original program (C17_reissue_preserves on this instance): %s" % (d,)
+            else:
+                stats["spec_equal"] += 1
+        if why:
+            nbad += 1
+            if nbad <= 10:
+                ctx.violation("c17_tie_%d.txt" % nbad,
+                              "original program + copy:\n%s\n\nre-issue script rebuilt from the original's chunks:\n%s\n\nreplay: echo '<script>' | "
+                              "/verif/build/plain/jlsrun prog /tmp timeout=60\nimpl(original+copy): %s\nimpl(re-issue): %s\n\n%s\n"
+                              % (s1[k], s2[k], o1[k][-300:], o2[k][-300:], why), "copy tie: " + why[:160])
+    ctx.extra["reissue_tie"] = stats
+    ctx.cov["rule_summ"] = ("%d ramp programs: jls_copy output byte-identical to the C writer run on the calls rebuilt from the original's chunks in file order "
+                            "(%d identical), and Spec accepts those calls and reads them back as the original (%d equal)" % (n, stats["identical"], stats["spec_equal"]))
+
+
 def classify(script, meta, mism):
     if meta.get("has_omit") and all(x["cls"] == "fsr" and x["op"].startswith(("rd", "len")) for x in mism):
         return "copy-omitted-blocks-become-fill"
@@ -125,7 +328,7 @@ def run(ctx):
         "calls of block-relative sizes, constant blocks / omission toggles, annotations incl. signal 0, UTC entries, user data, all interleaved), "
         "closed, then jls_copy; the COPY is opened and sources, signals, user data, lengths, whole-signal and random windows, all annotations and all "
         "UTC entries are compared with the extracted spec_of of the program; distinct = script",
-        classify=classify, timeout=60)
+        classify=classify, timeout=60, pre_run=tie_run)
 
 
 def replay(ctx, path):
